@@ -344,6 +344,22 @@ def programs(tier, seed):
         q["entry"] = main
         q["name"] = "special-characters-in-paths/%s" % names[0][4:]
         ps.append(q)
+    # a kept node reached through a function object handed to an untracked runner (positionally / by keyword), next to a direct call
+    q = gen.new_program("g%d" % k)
+    k += 1
+    m = gen.add_module(q, "gm")
+    shared = gen.add_fn(q, m, "shared", data_path="/cb/s", const=1)
+    fa = gen.add_fn(q, m, "direct_user", const=2)
+    q["fns"][fa]["stmts"] = [gen.s_call(shared, [])]
+    fb = gen.add_fn(q, m, "positional_callback_user", const=3)
+    q["fns"][fb]["stmts"] = [gen.s_ref(shared)]
+    fc = gen.add_fn(q, m, "keyword_callback_user", const=4)
+    q["fns"][fc]["stmts"] = [gen.s_ref(shared, kw=True)]
+    main = gen.add_fn(q, m, "gmain", const=9)
+    q["fns"][main]["stmts"] = [gen.s_keep("/cb/a", fa, []), gen.s_keep("/cb/b", fb, []), gen.s_keep("/cb/c", fc, [])]
+    q["entry"] = main
+    q["name"] = "callbacks-handed-to-untracked-runner"
+    ps.append(q)
     # the same function kept under two paths
     q = gen.new_program("g%d" % k)
     k += 1
